@@ -44,15 +44,21 @@ def lean_eval(table, abs_items, defs, term_ids, want_wf=True):
     return r.stdout.split()
 
 
-def check_models(script_text, stdout):
+def check_models(script_text, stdout, expect_legal=True):
     """For every sat check followed by get-model: all active assertions must evaluate to true, every declared symbol
     must be defined, get-value pairs must agree with the model. Returns (n_models_checked, problems, stats)."""
     sc = smtlib.Script(script_text)
     al, extra = align_outputs(sc, stdout)
     if al is None:
         return 0, [extra], {}
-    active = sc.active_assertions_at_checks()
-    problems, nmodels, stats = [], 0, {"assertions": 0, "values": 0}
+    rejected = {i for i, name, out in al if is_error(out)}
+    active = sc.active_assertions_at_checks(rejected)
+    problems, nmodels, stats = [], 0, {"assertions": 0, "values": 0, "rejected_commands": len(rejected)}
+    if expect_legal:
+        for i, name, out in al:
+            if i in rejected and name in ("assert", "push", "pop", "declare-fun", "declare-const", "define-fun"):
+                problems.append({"what": f"command #{i} ({name}) of a legal script is rejected: {smtlib.unparse(out)[:200]}"})
+                break
     chk_no = -1
     last_answer, last_defs = None, None
     declared_so_far = []
